@@ -20,6 +20,7 @@ import (
 	"verif/internal/prog"
 	"verif/internal/ref"
 	"verif/internal/rig"
+	"verif/internal/romrun"
 )
 
 type sim struct {
@@ -609,6 +610,24 @@ func run(c *rig.Ctx) {
 		}
 	})
 
+	// (h2) relative jumps: every displacement byte x every flag nibble x several code sites
+	// (including sites where the target wraps through 0000/FFFF or crosses a region boundary)
+	c.Part("jr", 5*256, func(i int64, r *rig.Rng) {
+		op := []byte{0x18, 0x20, 0x28, 0x30, 0x38}[i/256]
+		disp := uint8(i)
+		for fl := 0; fl < 16; fl++ {
+			for _, pc := range []uint16{0xc000, 0xc07e, 0xdffd, 0xff80, 0xffc0, 0xe010, 0x8001} {
+				regs := randRegs(r)
+				regs.PC, regs.F = pc, uint8(fl)<<4
+				s.place(pc, op, disp)
+				s.run(regs, false, "jr")
+				c.Exact(1)
+				c.Count("jr_cases", 1)
+			}
+		}
+	})
+	c.MarkExhaustive("JR / JR cc: every displacement x flag nibble")
+
 	// (i) everything else: every defined opcode x 16 flag nibbles x random operands/addresses
 	var generic [][]byte
 	for op := 0; op < 256; op++ {
@@ -743,6 +762,14 @@ func run(c *rig.Ctx) {
 			c.Count(fmt.Sprintf("lsop_%03X", k), n)
 		}
 	}
+
+	// Lock-step on blargg's cpu_instrs ROMs (programs neither the repository's author nor the
+	// harness wrote): the monitor must stay silent and the ROMs must keep passing.
+	sel := []string{"cpu_instrs/individual/01", "cpu_instrs/individual/03", "cpu_instrs/individual/06", "cpu_instrs/individual/09", "instr/daa", "bits/reg_f"}
+	if c.Thorough() {
+		sel = []string{"cpu_instrs/individual/", "cpu_instrs/cpu_instrs.gb", "instr/daa", "bits/reg_f", "bits/mem_oam"}
+	}
+	romrun.FollowROMs(c, "roms", romrun.Select(sel...), romrun.FollowOpts{Props: []string{"C01"}, Verdict: true, MemEvery: 64})
 }
 
 // finish runs in the parent: union of the opcodes retired under the lock-step monitor.
